@@ -14,7 +14,8 @@
 //!    a client certificate, `handshakeOk`)                                   → `FailKind::Model`.
 //! Beyond the matrix: configuration corner cases (cert without key, no CA file, CA bundle, empty CA
 //! file, unparsable names), a probe of whether the server sends a CertificateRequest, the server-name
-//! choice of the real client (`client_main_inner` → `ws_connect::handshake`), identity reload
+//! choice of the real client (`client_main_inner` → `ws_connect::handshake`; also with custom `-H/--header`
+//! request headers, a `Host` header among them, which must never change the name asked for), identity reload
 //! through the real `run_listener` + `reload_tls_identity`, and histories of reloads (certificate and
 //! client-CA setting) with long-lived clients that keep their `ClientConfig` — and so offer session
 //! resumption — across connections (`resume …` scenarios): every handshake after a reload is judged
@@ -48,6 +49,12 @@ use tokio::io::{AsyncRead, AsyncReadExt, AsyncWrite, AsyncWriteExt};
 const GOOD_NAME: &str = "server.test";
 const OTHER_NAME: &str = "other.test";
 const CASE_TIMEOUT: Duration = Duration::from_secs(15);
+/// host of the server URL in the server-name families
+const URL_HOST: &str = "localhost";
+/// the host a custom `Host` request header names (never a name the client was asked to verify)
+const HEADER_HOST: &str = "front.test";
+/// names for which the server-name families have a server certificate (each valid for that one name only)
+const NAME_CERTS: [&str; 4] = [URL_HOST, "h.test", "s.test", HEADER_HOST];
 
 // ---------------------------------------------------------------------------------------------
 // PKI on disk
@@ -169,7 +176,8 @@ impl Pki {
         pki.write_leaf("cli_trusted", &leaf("client leaf (C)", &["client.test"], false, Some(&c), round.alg));
         pki.write_leaf("cli_other", &leaf("client leaf (D)", &["client.test"], false, Some(&d), round.alg));
         // for the server-name choice part: leaves under A for each candidate name
-        for n in ["localhost", "h.test", "s.test"] {
+        // (`front.test` = the host named by a custom `Host` request header in the header family)
+        for n in NAME_CERTS {
             pki.write_leaf(&format!("srv_name_{n}"), &leaf("server leaf (A)", &[n], true, Some(&a), round.alg));
         }
         pki
@@ -624,11 +632,13 @@ struct NameObs {
     connected: bool,
     sni: Option<String>,
     tls_ok: bool,
+    /// value of the `Host` header of the upgrade request that followed the handshake (diagnostic only)
+    http_host: Option<String>,
     client_err: Option<String>,
 }
 
-async fn name_case(pki: &Pki, hostname: Option<&[u8]>, sni: Option<&str>, cert_for: &str) -> Result<NameObs, String> {
-    use rusty_penguin_lib::arg::{ClientArgs, Remote, ServerUrl};
+async fn name_case(pki: &Pki, hostname: Option<&[u8]>, sni: Option<&str>, headers: &[String], cert_for: &str) -> Result<NameObs, String> {
+    use rusty_penguin_lib::arg::{ClientArgs, Header, Remote, ServerUrl};
     use rusty_penguin_lib::client::{HandlerResources, client_main_inner};
     use std::str::FromStr;
     let listener = tokio::net::TcpListener::bind("127.0.0.1:0").await.map_err(|e| format!("bind: {e}"))?;
@@ -640,24 +650,37 @@ async fn name_case(pki: &Pki, hostname: Option<&[u8]>, sni: Option<&str>, cert_f
     );
     let server = tokio::spawn(async move {
         let Ok(Ok((tcp, _))) = tokio::time::timeout(Duration::from_secs(3), listener.accept()).await else {
-            return (false, None, false);
+            return (false, None, false, None);
         };
         let Ok(start) = tokio_rustls::LazyConfigAcceptor::new(rustls::server::Acceptor::default(), tcp).await else {
-            return (true, None, false);
+            return (true, None, false, None);
         };
         let sni = start.client_hello().server_name().map(str::to_string);
-        let ok = match start.into_stream(cfg).await {
+        let (ok, http_host) = match start.into_stream(cfg).await {
             Ok(mut s) => {
                 // the client goes on to send its HTTP upgrade request only if it accepted the certificate
                 let mut b = [0u8; 4];
-                matches!(tokio::time::timeout(Duration::from_secs(3), s.read_exact(&mut b)).await, Ok(Ok(_))) && &b == b"GET "
+                let ok = matches!(tokio::time::timeout(Duration::from_secs(3), s.read_exact(&mut b)).await, Ok(Ok(_))) && &b == b"GET ";
+                // the rest of the request head, for the `Host` header it carries (best effort, bounded)
+                let mut head: Vec<u8> = b.to_vec();
+                let mut chunk = [0u8; 1024];
+                while ok && head.len() < 16384 && !head.windows(4).any(|w| w == b"\r\n\r\n") {
+                    match tokio::time::timeout(Duration::from_secs(1), s.read(&mut chunk)).await {
+                        Ok(Ok(n)) if n > 0 => head.extend_from_slice(&chunk[..n]),
+                        _ => break,
+                    }
+                }
+                let host = String::from_utf8_lossy(&head)
+                    .split("\r\n")
+                    .find_map(|l| l.split_once(':').filter(|(k, _)| k.eq_ignore_ascii_case("host")).map(|(_, v)| v.trim().to_string()));
+                (ok, host)
             }
-            Err(_) => false,
+            Err(_) => (false, None),
         };
-        (true, sni, ok)
+        (true, sni, ok, http_host)
     });
     let args = ClientArgs {
-        server: ServerUrl::from_str(&format!("wss://localhost:{port}/ws")).map_err(|e| format!("url: {e}"))?,
+        server: ServerUrl::from_str(&format!("wss://{URL_HOST}:{port}/ws")).map_err(|e| format!("url: {e}"))?,
         remote: vec![Remote::from_str("0:127.0.0.1:0").map_err(|e| format!("remote: {e}"))?],
         max_retry_count: 1,
         max_retry_interval: 1,
@@ -665,13 +688,15 @@ async fn name_case(pki: &Pki, hostname: Option<&[u8]>, sni: Option<&str>, cert_f
         tls_server_name: sni.map(Into::into),
         tls_ca: Some(pki.p("ca_a.pem")),
         tls_skip_verify: false,
+        // `-H/--header` values, through the real parser of the option
+        header: headers.iter().map(|h| Header::from_str(h).map_err(|e| format!("header `{h}`: {e}"))).collect::<Result<Vec<_>, _>>()?,
         ..Default::default()
     };
     let args: &'static ClientArgs = Box::leak(Box::new(args));
     let (hr, stream_rx, dgram_rx) = HandlerResources::create();
     let hr: &'static HandlerResources = Box::leak(Box::new(hr));
     let client = tokio::spawn(client_main_inner(args, hr, stream_rx, dgram_rx));
-    let (connected, sni_seen, tls_ok) = server.await.map_err(|e| format!("server task: {e}"))?;
+    let (connected, sni_seen, tls_ok, http_host) = server.await.map_err(|e| format!("server task: {e}"))?;
     let client_err = if client.is_finished() || !connected {
         match tokio::time::timeout(Duration::from_secs(3), client).await {
             Ok(Ok(Err(e))) => Some(format!("{e:?}")),
@@ -683,11 +708,11 @@ async fn name_case(pki: &Pki, hostname: Option<&[u8]>, sni: Option<&str>, cert_f
         client.abort();
         None
     };
-    Ok(NameObs { connected, sni: sni_seen, tls_ok, client_err })
+    Ok(NameObs { connected, sni: sni_seen, tls_ok, http_host, client_err })
 }
 
 async fn name_part(cx: &mut Ctx, pki: &Pki, round: &Round) {
-    let url = "localhost";
+    let url = URL_HOST;
     for hostname in [None, Some("h.test")] {
         for sni in [None, Some("s.test")] {
             let want = sni.or(hostname).unwrap_or(url); // the property: --tls-server-name over --hostname over URL host
@@ -696,7 +721,7 @@ async fn name_part(cx: &mut Ctx, pki: &Pki, round: &Round) {
                 let key = format!("name url={url} hostname={hostname:?} sni={sni:?} cert-for={cert_for} [round {}]", round.idx);
                 cx.rep.case(Some(fnv(key.as_bytes())));
                 let replay = json!({"op": "name", "hostname": hostname, "sni": sni, "cert_for": cert_for});
-                let obs = match name_case(pki, hostname.map(str::as_bytes), sni, cert_for).await {
+                let obs = match name_case(pki, hostname.map(str::as_bytes), sni, &[], cert_for).await {
                     Ok(o) => o,
                     Err(e) => {
                         cx.rep.fail(FailKind::Model, &key, &format!("name case could not run: {e}"), replay);
@@ -727,7 +752,7 @@ async fn name_part(cx: &mut Ctx, pki: &Pki, round: &Round) {
         let key = format!("name hostname=non-ascii sni={sni:?} [round {}]", round.idx);
         cx.rep.case(Some(fnv(key.as_bytes())));
         let replay = json!({"op": "name", "hostname": "!", "sni": sni});
-        match name_case(pki, Some(b"h\xff.test"), sni, "s.test").await {
+        match name_case(pki, Some(b"h\xff.test"), sni, &[], "s.test").await {
             Ok(obs) => {
                 cx.rep.count("name/invalid-hostname");
                 let errored = obs.client_err.as_deref().is_some_and(|e| e.contains("InvalidDomainName"));
@@ -743,6 +768,189 @@ async fn name_part(cx: &mut Ctx, pki: &Pki, round: &Round) {
                 }
             }
             Err(e) => cx.rep.fail(FailKind::Model, &key, &format!("name case could not run: {e}"), replay),
+        }
+    }
+}
+
+// ---------------------------------------------------------------------------------------------
+// The name the real client asks for does not depend on custom request headers (`-H/--header`)
+// ---------------------------------------------------------------------------------------------
+//
+// {`--hostname` given / not} x {`--tls-server-name` given / not} (the URL host is always there)
+// x {no custom header, `Host: front.test`, `host: front.test`, an unrelated header carrying that host,
+//    `Host: <the requested name>`}
+// x {server certificate valid for the requested name / only for the header's host / only for the URL host}.
+// The requested name is the documented one (`--tls-server-name` over `--hostname` over the URL host,
+// `ClientArgs`); a request header is not a TLS setting.  Judged (a) directly: the SNI the server sees is the
+// requested name and the client goes on exactly when the certificate presented is valid for it; (b) against
+// the model's `chooseServerName` through the unchanged `name` request of `drv_tls` (the model has no
+// headers, so its answer cannot depend on them).
+
+const HEADER_KINDS: [&str; 5] = ["none", "Host-other", "host-other", "unrelated", "Host-requested"];
+
+#[derive(Clone, Debug, PartialEq, Eq)]
+struct HCase {
+    hostname: Option<String>,
+    sni: Option<String>,
+    /// the `-H/--header` values, as typed
+    headers: Vec<String>,
+    /// the one name the server's certificate is valid for (one of `NAME_CERTS`)
+    cert_for: String,
+}
+
+impl HCase {
+    /// the property's "requested server name"
+    fn want(&self) -> &str {
+        self.sni.as_deref().or(self.hostname.as_deref()).unwrap_or(URL_HOST)
+    }
+    fn headers_of(kind: &str, want: &str) -> Vec<String> {
+        match kind {
+            "Host-other" => vec![format!("Host: {HEADER_HOST}")],
+            "host-other" => vec![format!("host: {HEADER_HOST}")],
+            "unrelated" => vec![format!("X-Forwarded-Host: {HEADER_HOST}")],
+            "Host-requested" => vec![format!("Host: {want}")],
+            _ => vec![],
+        }
+    }
+    /// bucket of the header dimension (for the distribution)
+    fn kind(&self) -> &'static str {
+        HEADER_KINDS.into_iter().find(|k| Self::headers_of(k, self.want()) == self.headers).unwrap_or("other")
+    }
+    /// what a custom `Host` header says, if there is one (the last one wins in a `HeaderMap::insert` loop)
+    fn header_host(&self) -> Option<&str> {
+        self.headers.iter().rev().find_map(|h| h.split_once(':').filter(|(k, _)| k.trim().eq_ignore_ascii_case("host")).map(|(_, v)| v.trim()))
+    }
+    fn cert_role(&self) -> &'static str {
+        if self.cert_for == self.want() {
+            "requested-name"
+        } else if self.cert_for == HEADER_HOST {
+            "header-host-only"
+        } else if self.cert_for == URL_HOST {
+            "url-host-only"
+        } else {
+            "another-name"
+        }
+    }
+    fn key(&self, round: &Round) -> String {
+        format!("nameh url={URL_HOST} hostname={:?} sni={:?} headers={:?} cert-for={} [round {}]",
+            self.hostname, self.sni, self.headers, self.cert_for, round.idx)
+    }
+    fn to_json(&self) -> Value {
+        json!({"hostname": self.hostname, "sni": self.sni, "headers": self.headers, "cert_for": self.cert_for})
+    }
+    fn from_json(v: &Value) -> Option<Self> {
+        let opt = |k: &str| match &v[k] {
+            Value::Null => Some(None),
+            Value::String(s) => Some(Some(s.clone())),
+            _ => None,
+        };
+        let cert_for = v["cert_for"].as_str()?.to_string();
+        if !NAME_CERTS.contains(&cert_for.as_str()) {
+            return None;
+        }
+        Some(Self {
+            hostname: opt("hostname")?,
+            sni: opt("sni")?,
+            headers: v["headers"].as_array()?.iter().map(|h| h.as_str().map(str::to_string)).collect::<Option<Vec<_>>>()?,
+            cert_for,
+        })
+    }
+    fn replay(&self) -> Value {
+        let mut v = self.to_json();
+        v["op"] = json!("nameh");
+        v
+    }
+    /// the model's request: the headers are not part of it
+    fn model_line(&self) -> String {
+        format!("name {URL_HOST} {} {}", self.hostname.as_deref().unwrap_or("-"), self.sni.as_deref().unwrap_or("-"))
+    }
+    /// the property evaluated directly on what the server saw
+    fn problem(&self, obs: &NameObs) -> Option<String> {
+        let want = self.want();
+        if obs.connected && obs.sni.as_deref() == Some(want) && obs.tls_ok == (self.cert_for == want) {
+            return None;
+        }
+        let blame = match self.header_host() {
+            Some(h) if h != want && obs.sni.as_deref() == Some(h) => " - the name asked for is the one of the custom `Host` request header".to_string(),
+            _ => String::new(),
+        };
+        Some(format!(
+            "the requested server name is `{want}` (--tls-server-name over --hostname over the URL host; request headers {:?} are not a TLS \
+setting): the client must send it as SNI and go on exactly when the certificate is valid for it (here it is valid for `{}` only, so the \
+handshake must {}); observed {obs:?}{blame}",
+            self.headers,
+            self.cert_for,
+            if self.cert_for == want { "complete" } else { "be refused" },
+        ))
+    }
+}
+
+/// The whole matrix (55 cases) or, `few`, the handful of the quick tier: under every choice of the name
+/// sources a `Host` header naming another host, against a certificate for the requested name and one for
+/// the header's host, plus the case variant, the unrelated header and the control without header once.
+fn nameh_cases(few: bool, rng: &mut Rng) -> Vec<HCase> {
+    let mut v = vec![];
+    let mut sources = vec![];
+    for hostname in [None, Some("h.test")] {
+        for sni in [None, Some("s.test")] {
+            sources.push((hostname.map(str::to_string), sni.map(str::to_string)));
+        }
+    }
+    // quick: which choice of name sources also gets the remaining header kinds is the seed's
+    let full_for = rng.below(sources.len() as u64) as usize;
+    for (i, (hostname, sni)) in sources.into_iter().enumerate() {
+        let want = sni.clone().or(hostname.clone()).unwrap_or(URL_HOST.to_string());
+        for kind in HEADER_KINDS {
+            if few && kind != "Host-other" && i != full_for {
+                continue;
+            }
+            let mut certs = vec![want.as_str(), HEADER_HOST, URL_HOST];
+            if few {
+                certs.truncate(if kind == "Host-other" { 2 } else { 1 });
+            }
+            certs.dedup();
+            for cert_for in certs {
+                let c = HCase { hostname: hostname.clone(), sni: sni.clone(), headers: HCase::headers_of(kind, &want), cert_for: cert_for.to_string() };
+                if !v.contains(&c) {
+                    v.push(c);
+                }
+            }
+        }
+    }
+    v
+}
+
+async fn nameh_part(cx: &mut Ctx, pki: &Pki, round: &Round, cases: &[HCase]) {
+    let model: Option<Vec<String>> = cx.drv.as_mut().map(|d| d.batch(&cases.iter().map(HCase::model_line).collect::<Vec<_>>()));
+    for (i, c) in cases.iter().enumerate() {
+        let key = c.key(round);
+        cx.rep.case(Some(fnv(key.as_bytes())));
+        let obs = match name_case(pki, c.hostname.as_deref().map(str::as_bytes), c.sni.as_deref(), &c.headers, &c.cert_for).await {
+            Ok(o) => o,
+            Err(e) => {
+                cx.rep.fail(FailKind::Model, &key, &format!("name case could not run: {e}"), c.replay());
+                continue;
+            }
+        };
+        cx.rep.count(&format!("nameh/header={}/cert={}/{}", c.kind(), c.cert_role(), if obs.tls_ok { "accepted" } else { "refused" }));
+        if obs.tls_ok {
+            // (diagnostic) the header dimension is live: a custom `Host` header does reach the HTTP request
+            if let Some(h) = c.header_host() {
+                cx.rep.count(&format!("nameh/http-host-is-the-custom-header/{}", obs.http_host.as_deref() == Some(h)));
+            }
+        }
+        if let Some(why) = c.problem(&obs) {
+            cx.rep.fail(FailKind::Impl, &key, &why, c.replay());
+        }
+        if let Some(m) = &model {
+            cx.rep.model_compared += 1;
+            let chosen = m[i].strip_prefix("ok ");
+            if chosen != obs.sni.as_deref() || chosen.map(|n| n == c.cert_for) != Some(obs.tls_ok) {
+                cx.rep.fail(FailKind::Model, &format!("model {key}"), &format!("model `{}` (for `{}`; the model has no request headers) vs {obs:?}", m[i], c.model_line()), c.replay());
+            }
+        }
+        if c.kind() == "Host-other" && c.cert_role() == "header-host-only" && c.sni.is_some() && c.hostname.is_some() && round.idx == 0 {
+            cx.rep.sample(json!({"nameh": c.to_json(), "requested_name": c.want(), "impl": format!("{obs:?}")}));
         }
     }
 }
@@ -2779,6 +2987,42 @@ fn replay(path: &str, platform: &Platform) -> i32 {
                 1
             }
         }
+        Some("nameh") => {
+            let Some(c) = HCase::from_json(rp) else {
+                println!("unreadable nameh case");
+                return 2;
+            };
+            let round = Round { idx: 0, alg: "p256", intermediate: false, mismatch_on_cert: false };
+            let pki = Pki::generate(&base, &round);
+            println!("case      server URL wss://{URL_HOST}:<port>/ws, --hostname {:?}, --tls-server-name {:?}, --header {:?}; the server's certificate is valid for `{}` only",
+                c.hostname, c.sni, c.headers, c.cert_for);
+            println!("required  SNI `{}`, handshake {}", c.want(), if c.cert_for == c.want() { "completes" } else { "is refused by the client" });
+            let run = |c: &HCase| rt.block_on(name_case(&pki, c.hostname.as_deref().map(str::as_bytes), c.sni.as_deref(), &c.headers, &c.cert_for));
+            let mut obs = run(&c);
+            if obs.is_err() {
+                println!("first run could not run; running once more");
+                obs = run(&c);
+            }
+            match obs {
+                Err(e) => {
+                    println!("could not run: {e}");
+                    2
+                }
+                Ok(obs) => {
+                    println!("impl      {obs:?}");
+                    match c.problem(&obs) {
+                        None => {
+                            println!("holds on this input");
+                            0
+                        }
+                        Some(why) => {
+                            println!("FAILS: {why}");
+                            1
+                        }
+                    }
+                }
+            }
+        }
         Some(op @ ("reload" | "name" | "asks")) => {
             let round = Round { idx: 0, alg: "p256", intermediate: false, mismatch_on_cert: false };
             let pki = Pki::generate(&base, &round);
@@ -2819,7 +3063,9 @@ fn main() {
     let rule = "every combination of the property's quantifier {server cert: trusted CA/other CA/self-signed} x {name \
 matches/differs} x {skip-verify} x {client cert: none/trusted CA/other CA} x {server client-CA set/not} (72) as a real \
 handshake per PKI round (key algorithm, direct or via an intermediate, name mismatch on the request or on the \
-certificate), plus configuration corner cases, CertificateRequest probes, the client's server-name choice, the reload \
+certificate), plus configuration corner cases, CertificateRequest probes, the client's server-name choice (also under custom request headers: none / Host: another host / \
+host: another host / an unrelated header / Host: the requested name, against a certificate for the requested name, for the header's \
+host only, for the URL host only), the reload \
 scenario, histories of reloads with long-lived clients that keep their TLS session store (every client-CA transition) and \
 histories of SIGUSR1-driven reloads (valid and broken files) against the real server_main, and --tls-ca files without \
 usable certificate (DER, TRUSTED CERTIFICATE, key only, empty, truncated) on either side with the platform trust store under the \
@@ -2853,6 +3099,14 @@ harness's control (client, server start, reload, server_main start and SIGUSR1);
                     .filter_map(|v| Case::from_json(&v))
                     .collect();
                 cx.eval_cases(&pki, &rounds[0], &cases).await;
+                // `nameh <json case>` lines: the client's server name under custom request headers
+                let hcs: Vec<HCase> = text
+                    .lines()
+                    .filter_map(|l| l.strip_prefix("nameh "))
+                    .filter_map(|j| serde_json::from_str::<Value>(j).ok())
+                    .filter_map(|v| HCase::from_json(&v))
+                    .collect();
+                nameh_part(&mut cx, &pki, &rounds[0], &hcs).await;
                 // `resume …` lines: returning-client scenarios
                 let rscs: Vec<RScenario> = text.lines().filter_map(RScenario::parse).collect();
                 if !rscs.is_empty() {
@@ -2879,6 +3133,9 @@ harness's control (client, server start, reload, server_main start and SIGUSR1);
             asks_probe(&mut cx, &pki, round).await;
             if round.idx == 0 || args.tier == Tier::Thorough {
                 name_part(&mut cx, &pki, round).await;
+                // the same choice under custom request headers: a handful in quick, the whole matrix in thorough
+                let hcs = nameh_cases(args.tier == Tier::Quick, &mut rng);
+                nameh_part(&mut cx, &pki, round, &hcs).await;
                 reload_part(&mut cx, &pki, round).await;
                 // returning clients: the fixed family (all policy transitions) plus seeded histories
                 let leaves = resume_leaves(round);
